@@ -85,6 +85,12 @@ func (j *Journal) Fields() []Field {
 			for i := range t.Lines {
 				cs = append(cs, &t.Lines[i])
 			}
+			// comment lines between and after the postings are comments of the transaction
+			for pi := range t.Postings {
+				for k := range t.Postings[pi].After {
+					cs = append(cs, &t.Postings[pi].After[k])
+				}
+			}
 			var texts []string
 			for _, c := range cs {
 				if c != nil {
